@@ -818,7 +818,40 @@ def targeted_sets(seed):
     out.append(('empty-container:local', {'alpha': M([('src', M([('items', L([])), ('opts', M([]))])),
                ('one', M([('__include', S('/src')), ('__patch', M([('items/@next', w()), ('opts/k', w())]))])),
                ('two', M([('__include', S('/src'))]))])}))
+    # 13. nested merge below an index-shifting key: the second entry of the inner map is written through a reference
+    #     whose parent was written before (ownership of the copied container)
+    base5 = M([('l', L([M([('x', S('k'))]), M([('m', M([('z', S('0'))]))])]))])
+    out.append(('index-shift:nested-merge', {'base': base5,
+               'alpha': M([('t', M([('__include', S('base:/')),
+                                     ('__patch', M([('l/@before last/+', M([('m', M([('a', w()), ('b', w())]))]))]))])),
+                           ('u', M([('__include', S('base:/l'))]))])}))
+    out.append(('index-shift:nested-merge-override', {'base': base5,
+               'alpha': M([('t', M([('__include', S('base:/')),
+                                     ('l', M([('@before last', M([('m', M([('a', w()), ('b', w())]))]))]))])),
+                           ('u', M([('__include', S('base:/l/@last'))]))])}))
     return out
+
+
+def has_mid_path_insert(docs):
+    """a map key whose path has an inserting index form (@before, @after) that is read again after it was written:
+    before the last component of the path, or as the last component when a non-empty map is merged into it (`/+`, or
+    a bare index key among merged sibling keys).  Reading and writing such a component denote different elements;
+    only 'sources untouched' is judged on such sets."""
+    def walk(n):
+        if n[0] == 'L':
+            return any(walk(x) for x in n[1])
+        if n[0] == 'M':
+            for k, v in n[1]:
+                kk = k[:-2] if k.endswith('/+') or k.endswith('/=') else k
+                cs = [c for c in kk.split('/') if c]
+                ins = [i for i, c in enumerate(cs) if c.startswith('@before') or c.startswith('@after')]
+                if ins and (ins[0] < len(cs) - 1 or
+                            (v[0] == 'M' and v[1] and (k.endswith('/+') or len(cs) == 1))):
+                    return True
+                if walk(v):
+                    return True
+        return False
+    return any(walk(y) for y in docs.values())
 
 
 def has_directive_directly_in_patch_literal(docs):
